@@ -21,4 +21,7 @@ def translated : List String := ["GetHashLock(secret,timestamp)", "GetID(sender,
 /-- every rejecting guard of the translated functions, in source order -/
 def guards : List String := []
 
+/-- every statement of the translated functions executed for its effect, with its nesting depth, in source order -/
+def effects : List String := []
+
 end Irismod.Gen.PureHtlcId
